@@ -222,7 +222,7 @@ func TestC04Types(t *testing.T) {
 			c.Typ = uint16(typ)
 			hC04.Eval()
 			n++
-			if err := propC04(c); err != nil {
+			if err := hx.Guard(propC04, c); err != nil {
 				hC04.Fail(t, "TestC04", c, "%v", err)
 			}
 		}
